@@ -253,6 +253,63 @@ func replayCLI(args []string) error {
 	if err != nil {
 		return err
 	}
+	// one large well-formed CSV through both modes: 8192 records, a column in blocks of exactly 4096
+	var big bytes.Buffer
+	big.WriteString("Parity,Block,Id\n")
+	for i := 0; i < 8192; i++ {
+		fmt.Fprintf(&big, "%s,b%d,r%d\n", []string{"even", "odd"}[i%2], i/4096, i)
+	}
+	csvPath := vx.Join(dir, "big.csv")
+	os.WriteFile(csvPath, big.Bytes(), 0644)
+	light := func(path string) (string, error) {
+		idx, err := updog.OpenIndex(path)
+		if err != nil {
+			return "", err
+		}
+		defer idx.Close()
+		var b strings.Builder
+		for _, q := range [][2]string{{"parity", "even"}, {"parity", "odd"}, {"block", "b0"}, {"block", "b1"}, {"id", "r4095"}, {"id", "r4096"}, {"id", "r8191"}} {
+			res, err := idx.Execute(&updog.Query{Expr: &updog.ExprEqual{Column: q[0], Value: q[1]}, GroupBy: []string{"block"}})
+			if err != nil {
+				fmt.Fprintf(&b, "%s=%s: error;", q[0], q[1])
+				continue
+			}
+			fmt.Fprintf(&b, "%s=%s:%d%v;", q[0], q[1], res.Count, res.Groups)
+		}
+		return b.String(), nil
+	}
+	// reference: the index of the rows UpdogCLI prescribes (record i -> row i, one value per normalised header)
+	refPath := vx.Join(dir, "big_ref.updog")
+	rw := updog.NewIndexWriter(refPath)
+	for i := 0; i < 8192; i++ {
+		rw.AddRow(map[string]string{"parity": []string{"even", "odd"}[i%2], "block": fmt.Sprintf("b%d", i/4096), "id": fmt.Sprintf("r%d", i)})
+	}
+	if err := rw.Flush(); err != nil {
+		return err
+	}
+	want, err := light(refPath)
+	if err != nil {
+		return err
+	}
+	for _, bigMode := range []bool{false, true} {
+		outPath := vx.Join(dir, fmt.Sprintf("big_%v.updog", bigMode))
+		argv := []string{"create", "-o", outPath}
+		if bigMode {
+			argv = append(argv, "-b")
+		}
+		cmd := exec.Command(*bin, append(argv, csvPath)...)
+		cmd.Env = append(os.Environ(), "TMPDIR="+dir)
+		rep.Steps++
+		rep.Behaviours++
+		if err := cmd.Run(); err != nil {
+			rep.Mismatch(map[string]any{"kind": "cli", "defect": "none", "pre": "absent", "csv": "8192 records (blocks of 4096)", "big": bigMode, "problem": "create failed: " + err.Error()})
+			continue
+		}
+		got, err := light(outPath)
+		if err != nil || got != want {
+			rep.Mismatch(map[string]any{"kind": "cli", "defect": "none", "pre": "absent", "csv": "8192 records (blocks of 4096)", "big": bigMode, "got": got, "want": want, "err": fmt.Sprint(err)})
+		}
+	}
 	rep.Print()
 	return nil
 }
